@@ -529,6 +529,105 @@ func runC20(c *Ctx) {
 	}
 	c.Min("C20.L1", 5)
 
+	// ---------- L3 atomic check-then-act: a write to a guarded container that is control-dependent on a
+	// read of the same container must happen in the critical section that contains that read.
+	for _, gf := range gfs {
+		nt := c.NamedType(gf.pkg, gf.typ)
+		if nt == nil {
+			continue
+		}
+		touches := func(g *ssa.Function) bool { // g (or its module callees, depth 2) accesses the guarded field
+			found := false
+			var walk func(h *ssa.Function, d int)
+			walk = func(h *ssa.Function, d int) {
+				if h == nil || h.Blocks == nil || d > 2 || found {
+					return
+				}
+				forEachInstr(h, func(in ssa.Instruction) {
+					if fa, ok := in.(*ssa.FieldAddr); ok {
+						t := fa.X.Type().Underlying().(*types.Pointer).Elem()
+						if types.Identical(t, nt) && fieldName(t, fa.Field) == gf.field {
+							found = true
+						}
+					}
+					if cl, ok := in.(*ssa.Call); ok {
+						if k := cl.Call.StaticCallee(); k != nil && inModule(k) {
+							walk(k, d+1)
+						}
+					}
+				})
+			}
+			walk(g, 0)
+			return found
+		}
+		for _, f := range c.Funcs {
+			forEachInstr(f, func(in ssa.Instruction) {
+				mu, ok := in.(*ssa.MapUpdate)
+				if !ok {
+					return
+				}
+				ld, isLd := mu.Map.(*ssa.UnOp)
+				if !isLd {
+					return
+				}
+				fa, isFA := ld.X.(*ssa.FieldAddr)
+				if !isFA {
+					return
+				}
+				t := fa.X.Type().Underlying().(*types.Pointer).Elem()
+				if !types.Identical(t, nt) || fieldName(t, fa.Field) != gf.field || isFreshBase(fa.X) {
+					return
+				}
+				mpath := c.Path(fa.X, nil) + "." + gf.mutex
+				okAtomic := true
+				var why []string
+				nConds := 0
+				for b := mu.Block(); b != nil; b = b.Idom() {
+					id := b.Idom()
+					if id == nil {
+						break
+					}
+					iff, isIf := id.Instrs[len(id.Instrs)-1].(*ssa.If)
+					if !isIf {
+						continue
+					}
+					// does the branch decide whether the write happens? (one successor does not reach the write)
+					for v := range backSlice(iff.Cond) {
+						switch x := v.(type) {
+						case *ssa.Lookup:
+							if l2, isL := x.X.(*ssa.UnOp); isL {
+								if f2, isF := l2.X.(*ssa.FieldAddr); isF && fieldName(f2.X.Type(), f2.Field) == gf.field {
+									nConds++
+									if !c.lockHeldAt(f, x, mpath, false) || !c.sameCriticalSection(f, x, mu, mpath) {
+										okAtomic = false
+										why = append(why, "the membership test at "+c.pos(x.Pos())+" is not in the critical section of the write")
+									}
+								}
+							}
+						case *ssa.Call:
+							k := x.Call.StaticCallee()
+							if k == nil || !inModule(k) || k.Signature.Recv() == nil || len(x.Call.Args) == 0 {
+								continue
+							}
+							if c.Path(x.Call.Args[0], nil) != c.Path(fa.X, nil) || !touches(k) {
+								continue
+							}
+							nConds++
+							if !c.lockHeldAt(f, x, mpath, false) || !c.sameCriticalSection(f, x, mu, mpath) {
+								okAtomic = false
+								why = append(why, "the decision is taken by "+short(k.String())+" at "+c.pos(x.Pos())+" outside the critical section of the write (check-then-act is not atomic)")
+							}
+						}
+					}
+				}
+				if nConds > 0 {
+					c.Check("C20.L3", short(f.String())+":check-then-write("+gf.typ+"."+gf.field+")", okAtomic, mu.Pos(), "the write to "+gf.typ+"."+gf.field+" and the test it depends on happen under one acquisition of "+gf.mutex+" "+strings.Join(why, "; "))
+				}
+			})
+		}
+	}
+	c.Min("C20.L3", 1)
+
 	// any other struct with a mutex must be in the frozen table
 	known := map[string]bool{}
 	for _, gf := range gfs {
@@ -583,4 +682,55 @@ func tagGuardedTestHook(f *ssa.Function) bool {
 		}
 	}
 	return false
+}
+
+// sameCriticalSection: a and b are both dominated by one Lock()/RLock() of mpath with no explicit
+// unlock of mpath between that acquire and either of them.
+func (c *Ctx) sameCriticalSection(f *ssa.Function, a, b ssa.Instruction, mpath string) bool {
+	ls := c.lockSites(f)
+	for _, l := range ls {
+		if l.defer_ || l.mpath != mpath || (l.kind != "Lock" && l.kind != "RLock") {
+			continue
+		}
+		if !instrDominates(l.in, a) || !instrDominates(l.in, b) {
+			continue
+		}
+		released := false
+		for _, u := range ls {
+			if u.defer_ || u.mpath != mpath || (u.kind != "Unlock" && u.kind != "RUnlock") {
+				continue
+			}
+			if instrDominates(l.in, u.in) && (instrDominates(u.in, a) || instrDominates(u.in, b)) {
+				released = true
+			}
+		}
+		if !released {
+			return true
+		}
+	}
+	return false
+}
+
+// receiverStateWrites: effect analysis with the fields of the given component types (read through a method
+// receiver) as sources: no write reachable from the entry functions may target memory held by the component.
+func (c *Ctx) receiverStateWrites(rule, label string, entries []*ssa.Function, isComponent func(types.Type) bool) {
+	a := &effect{c: c, fl: map[ssa.Value]int{}, tup: map[ssa.Value]map[int]int{}, locs: map[string]bool{}, ret: map[*ssa.Function]map[int]int{}, viol: map[string]effViolation{}, ext: map[string]int{}, violInstr: map[string]ssa.Instruction{}}
+	a.fieldSrc = func(fa *ssa.FieldAddr) bool {
+		t := fa.X.Type().Underlying().(*types.Pointer).Elem()
+		if !isComponent(t) || isFreshBase(fa.X) {
+			return false
+		}
+		p, ok := rootOf(fa.X).(*ssa.Parameter)
+		return ok && p.Parent().Signature.Recv() != nil && paramIndex(p) == 0
+	}
+	a.run(entries, func(f *ssa.Function) []*ssa.Parameter { return nil })
+	var keys []string
+	for k := range a.viol {
+		keys = append(keys, k)
+	}
+	sort.Strings(keys)
+	c.Check(rule, label+":no-write-through-component-state", len(keys) == 0, entries[0].Pos(), fmt.Sprintf("%d functions reachable from %s; %d write sites examined; none targets memory held in the component's own fields (results of one call cannot alias or disturb another call's)", len(a.order), label, a.sites))
+	for _, k := range keys {
+		c.Check(rule, label+":"+k, false, a.viol[k].p, "a call writes into memory held by the shared component: "+a.viol[k].what)
+	}
 }
